@@ -350,7 +350,7 @@ def do_check(prof: Profile, args) -> int:
             def run_case(c, _replay=prof.replay_case):
                 return _replay(c).get("violation")
 
-            mcase, mv, used = minimise.minimise(case, v, run_case, budget=300, step_slots=prof.step_slots)
+            mcase, mv, used = minimise.minimise(case, v, run_case, budget=int(os.environ.get("GEOSIM_MIN_BUDGET", "300")), step_slots=prof.step_slots)
             path = batch.write_replay(prof.prop, r["seed"], mcase, mv,
                                       {"minimisation_executions": used, "original_steps": len(case.get("steps", []))})
             ok, out = batch.fresh_replay(prof.prop, path)
